@@ -7,13 +7,15 @@ from .common import run_tlc
 from .geo import ANCHORS
 
 
-def obs_of(ev, name, tol=0, rel=0, exact=True, tiefree_path=False, keep_lat=False):
-    return {'name': name, 'exc': ev['exc'], 'idx': ev['idx'], 'states': ev['states'], 'path': ev['path'],
+def obs_of(ev, name, tol=0, rel=0, exact=True, tiefree_path=False, keep_lat=False, conc=None, hashseed=None):
+    conc = conc if conc is not None else ev.get('_conc')
+    return {'conc': conc.desc() if conc is not None else {}, 'hashseed': -1 if hashseed is None else hashseed, 'name': name, 'exc': ev['exc'], 'idx': ev['idx'], 'states': ev['states'], 'path': ev['path'],
             'lat': ev['lat'] if keep_lat else [], 'tol': tol, 'rel': rel, 'exact': exact, 'tiefree_path': tiefree_path}
 
 
 def run_one(inst, cf, conc, ops=None, unique=False, full=False):
     evs, _ = geom.run_geo(inst, cf, conc, ops=ops, unique=unique, full=full)
+    evs[-1]['_conc'] = conc
     return evs[-1]
 
 
@@ -185,7 +187,7 @@ def make_groups(chk, pid, rng, n_groups, thorough):
         for hs, lst in sorted(hash_jobs.items()):
             res = run_in_subprocess([j for _, _, j, _ in lst], hs)
             for (gid, nm, job, kw), ev in zip(lst, res):
-                by_gid[gid]['runs'].append(obs_of(ev, nm, **kw))
+                by_gid[gid]['runs'].append(obs_of(ev, nm, conc=geom.Conc.from_desc(job['conc']), hashseed=hs, **kw))
         for g in groups:
             g.pop('want_lat', None)
     return groups
@@ -217,9 +219,10 @@ def design_level(chk, pid, thorough):
     chk.tlc(r, 'LatticeMC C19scoped: DEBUG is neutral without non-emitting states and without exact ties (design level)')
     if r.invariant_violated:
         raise common.MachineryError('design-level violation of C19scoped: ' + r.tail[-2500:])
-    rx = run_tlc('LatticeMC', 'LatticeMC_C19x' + sx + '.cfg', workers=16, timeout=3000, seed=chk.seed + 1, allow_violation=True)
-    chk.tlc(rx, 'LatticeMC C19all (expected to fail): TLC reproduces the recorded findings on the specification')
-    chk.cov['design_level_counterexample_to_unrestricted_C19'] = bool(rx.invariant_violated)
+    if thorough:       # informational, thorough tier only: the unrestricted formula is expected to FAIL on the specification
+        rx = run_tlc('LatticeMC', 'LatticeMC_C19x' + sx + '.cfg', workers=16, timeout=3000, seed=chk.seed + 1, allow_violation=True)
+        chk.tlc(rx, 'LatticeMC C19all (expected to fail): TLC reproduces the recorded findings on the specification')
+        chk.cov['design_level_counterexample_to_unrestricted_C19'] = bool(rx.invariant_violated)
     # binding of the DEBUG model: TLC-enumerated behaviours with debug = TRUE replayed on the real BaseMatcher at DEBUG
     beh = lattice.behaviours_from_tlc(chk, 'LatticeMC_C19e' + sx + '.cfg', chk.seed + 1)
     runs, groups = [], []
@@ -229,7 +232,7 @@ def design_level(chk, pid, thorough):
         r0 = lattice.record_abs(i + 1, inst, dict(cf0, debug=False), ops, False, ())
         runs.append(rd)
         e0, ed = r0['events'][-1], rd['events'][-1]
-        g = {'gid': 500000 + i, 'inst': {}, 'cf': cf0, 'ops': [list(o) for o in ops], 'check_robust': False, 'obs4': [], 'edges4': [],
+        g = {'gid': 500000 + i, 'inst': inst.to_json(), 'abs': True, 'cf': cf0, 'ops': [list(o) for o in ops], 'check_robust': False, 'obs4': [], 'edges4': [],
              'runs': [obs_of(e0, 'default-logging'), obs_of(ed, 'DEBUG-logging', tol=0, exact=True)]}
         g['runs'][-1]['latdiff'] = classify_debug_diff(e0['lat'], ed['lat'])
         groups.append(g)
@@ -259,7 +262,8 @@ def run(chk):
                 sig['first_lattice_difference'] = g['runs'][-1].get('latdiff', 'none')
             chk.violation(f'group {g["gid"]}: {clause} under {name}',
                           {'kind': 'embed', 'inst': g['inst'], 'cf': g['cf'], 'ops': g['ops'], 'verdict': v,
-                           'runs': [{k: r[k] for k in ('name', 'exc', 'idx', 'states')} for r in g['runs']]},
+                           'pid': pid, 'abs': g.get('abs', False), 'check_robust': g.get('check_robust', False), 'obs4': g.get('obs4', []), 'edges4': g.get('edges4', []),
+                           'runs': [{k: r[k] for k in ('name', 'exc', 'idx', 'states', 'conc', 'hashseed', 'tol', 'rel', 'exact', 'tiefree_path')} for r in g['runs']]},
                           sig=sig)
     chk.count('groups', evaluations=sum(len(g['runs']) for g in groups), nontrivial=nontriv,
               traces=sum(len(g['runs']) for g in groups), groups=len(groups))
@@ -271,7 +275,49 @@ def run(chk):
 
 
 def replay(pid, case):
-    if case['case'].get('kind') != 'embed':
+    c = case['case']
+    if c.get('kind') != 'embed':
         from . import maps
         return maps.replay(pid, case)
-    raise common.MachineryError('replay of embedding groups: re-run bin/check with the same seed (the replay file holds the instance, configuration and operations)')
+    if c.get('abs'):
+        from . import lattice, absm
+        ainst = absm.inst_from_tlc(c['inst'])
+        ops = [tuple(o) for o in c['ops']]
+        rd = lattice.record_abs(1, ainst, dict(c['cf'], debug=True), ops, False, ())
+        r0 = lattice.record_abs(1, ainst, dict(c['cf'], debug=False), ops, False, ())
+        runs = [obs_of(r0['events'][-1], 'default-logging', keep_lat=True), obs_of(rd['events'][-1], 'DEBUG-logging', tol=0, exact=True, keep_lat=True)]
+        return finish_replay(pid, c, runs, {})
+    inst = c['inst']
+    inst['coord'] = {int(k): v for k, v in inst['coord'].items()}
+    ops = [tuple(o) for o in c['ops']] or None
+    runs = []
+    for i, r in enumerate(c['runs']):
+        conc = geom.Conc.from_desc(r['conc'])
+        full = (i == 0) or pid == 'C19'
+        if r.get('hashseed', -1) >= 0:
+            ev = run_in_subprocess([{'inst': inst, 'cf': c['cf'], 'conc': r['conc'], 'ops': c['ops'], 'full': full}], r['hashseed'])[0]
+        else:
+            ev = run_one(inst, c['cf'], conc, ops, full=full)
+        runs.append(obs_of(ev, r['name'], tol=r['tol'], rel=r['rel'], exact=r['exact'], tiefree_path=r['tiefree_path'],
+                           keep_lat=(i == 0 or pid == 'C19'), conc=conc, hashseed=r.get('hashseed', -1)))
+    return finish_replay(pid, c, runs, inst)
+
+
+def finish_replay(pid, c, runs, inst):
+    chk = common.Check(pid, 'quick', 0)
+    g = {'gid': 1, 'inst': inst, 'cf': c['cf'], 'ops': c['ops'], 'runs': runs, 'check_robust': c.get('check_robust', False),
+         'obs4': c.get('obs4', []), 'edges4': c.get('edges4', [])}
+    v = validate(chk, pid, [g], 'replay')[1]
+    if v:
+        clause, _, name = v.partition(':')
+        sig = {'clause': clause}
+        if pid == 'C19' and len(runs) == 2:
+            sig['first_lattice_difference'] = classify_debug_diff(runs[0]['lat'] or [], runs[1]['lat'] or [])
+        k = chk.match_known(sig)
+        if k is not None:
+            print(f"KNOWN-FINDING: property={pid} {k['id']}: {k['what']}")
+            return 0
+        print(f'VIOLATION property={pid} replay=(given)   # {v}')
+        return 1
+    print('replay: group accepted')
+    return 0
